@@ -196,7 +196,10 @@ class MatcherMixin:
     def finish_optionbag(self):
         for key in list(self.optionbag.keys()):
             for val, pos in self.optionbag.get_key(key):
-                ZConfig.matcher.BaseMatcher.addValue(self, key, val, pos)
+                # option positions are (url, lineno, colno); values carry
+                # (lineno, colno, url)
+                ZConfig.matcher.BaseMatcher.addValue(
+                    self, key, val, (pos[1], pos[2], pos[0]))
         self.optionbag.finish()
 
 
